@@ -55,7 +55,7 @@ def model_to_dict(model):
 _REFUTE_POINTS = [Fraction(k, 4) for k in (-9, -6, -5, -3, -2, -1, 1, 2, 3, 5, 7, 10)]
 
 
-def numeric_refute(eng, prop, tries=6):
+def numeric_refute(eng, prop, tries=6, salt=0):
     """Look for a rational point satisfying the path condition and falsifying prop.
     Returns {var: 'p/q'} or None.  Only an accelerator for the *sat* case: "holds" is
     never concluded from it."""
@@ -67,7 +67,7 @@ def numeric_refute(eng, prop, tries=6):
     for c in rel:
         names |= free_vars(c, eng._fv_cache)
     names = sorted(n for n in names if "#" not in n)
-    rng = random.Random(hash(tuple(names)) & 0xFFFF)
+    rng = random.Random((hash(tuple(names)) + salt) & 0xFFFF)
     for _ in range(tries):
         env = {n: rng.choice(_REFUTE_POINTS) for n in names}
         fe = FloatEval(env, eng)
@@ -148,6 +148,12 @@ class Acc:
                 ok, model = False, pt
         if ok is None and isinstance(prop, z3.ExprRef):
             ok, model = eng.valid(prop)
+            if ok is False and eng.sliced:
+                # z3's model may exploit the uninterpreted log / sqrt contracts; prefer a
+                # point at which the *true* functions falsify prop (it will replay)
+                pt = numeric_refute(eng, prop, tries=80, salt=1)
+                if pt is not None:
+                    model = pt
         if ok is True:
             self.inc("discharged")
             rec[1] += 1
